@@ -174,7 +174,7 @@ func runC10(c *fw.Ctx) {
 			nb := append([]byte(nil), base...)
 			if i%2 == 0 {
 				nb[i/2] ^= 0x10 << uint(r.Intn(3)) // differs in the high nibble of byte i/2
-				nb[i/2] ^= 0 // low nibble and the rest may stay: the first difference decides
+				nb[i/2] ^= 0                       // low nibble and the rest may stay: the first difference decides
 			} else {
 				nb[i/2] ^= 0x01 << uint(r.Intn(3))
 			}
